@@ -354,6 +354,10 @@ def run(rep, tier):
     from . import gt_tables
     from . import mapcoords
     mapcoords.run(rep, F, "R13.10")
+    # rotate_around_centroid / scale about the centroid weigh line work by its Euclidean length: the segment length kernel (shared with C07)
+    from . import c07
+    c07.point_kernel(rep, F, rule="R13.11")
+    skew_regimes(rep, F)
     gt_tables.run(rep, F, "R13.9", select={"Rect::center", "Rect::min", "Rect::max"})
 
 
@@ -440,3 +444,57 @@ def origin_traits(rep, F):
             else:
                 rep.ok("R13.7", key)
     rep.floor("R13.7", "trait methods", n, 10)
+
+
+def skew_regimes(rep, F, rule="R13.12"):
+    """AffineTransform::skew on tiny-angle witnesses, the extracted table evaluated numerically under both scalar regimes (machine epsilon of
+    f64 and of f32): the matrix is [[1, tan xs, -y0 tan xs], [tan ys, 1, -x0 tan ys]] - a tangent that the scalar type can represent (1e-7 is
+    an ordinary f32 value) is not snapped to zero, so a tiny skew of a tall geometry is not the identity."""
+    import math
+    from ..numeval import NumEval
+    from ..evalterm import NoModel
+    rep.rule(rule, "AffineTransform::skew with tiny angles (5e-6 and -3e-6 degrees), numeric evaluation with the machine epsilon of f64 and of f32: entries are tan(xs), tan(ys) and the matching offsets, not snapped to zero")
+    try:
+        fn = F.one(r"affine_ops::AffineTransform::<U>::skew$", crates=("geo",))
+        paths = [p for p in Symex(F, inline_crates=("geo", "geo_types"), max_depth=10, max_paths=2000).run(fn) if p.kind != "cut"]
+    except (KeyError, Unanalysable) as e:
+        rep.bad(rule, "skew-regimes:anchor", str(e))
+        return
+    bad = None
+    n = 0
+    for regime, eps in (("f64", 2.220446049250313e-16), ("f32", 1.1920929e-07)):
+        class Ev(NumEval):
+            def call(self, t, eps=eps):
+                m = t[1].rsplit("::", 1)[-1]
+                if m == "epsilon" and not t[2]:
+                    return eps
+                return NumEval.call(self, t)
+        for xs, ys, ox, oy in ((5e-6, -3e-6, 2.0, 1.0e6), (0.0, 5e-6, -4.0, 3.0), (30.0, 0.0, 1.0, 1.0)):
+            ev = Ev(F, {("arg", 1): xs, ("arg", 2): ys, ("arg", 3): {"x": ox, "y": oy}})
+            try:
+                hit = ev.select_path(paths)
+                if len(hit) != 1 or hit[0].kind != "ret":
+                    bad = "skew(%s, %s) selects %d rows under the %s regime" % (xs, ys, len(hit), regime)
+                    break
+                r = ev.ev(hit[0].ret)
+            except (NoModel, TypeError, KeyError, ValueError) as e:
+                bad = "cannot be evaluated under the %s regime: %s" % (regime, e)
+                break
+            m = r["0"] if isinstance(r, dict) and "0" in r else r
+            try:
+                got = [float(m[0][1]), float(m[1][0]), float(m[0][2]), float(m[1][2])]
+            except (TypeError, KeyError, IndexError):
+                bad = "the result is not a 3x3 matrix: %r" % (r,)
+                break
+            tx, ty = math.tan(math.radians(xs)), math.tan(math.radians(ys))
+            want = [tx, ty, -oy * tx, -ox * ty]
+            n += 1
+            if any(abs(g - w) > 1e-12 * max(1.0, abs(w)) + 1e-22 for g, w in zip(got, want)):
+                bad = "skew(xs = %s deg, ys = %s deg, origin (%s, %s)) with the scalar type's epsilon = %s (%s): entries [b, d, xoff, yoff] = %s, expected %s" % (xs, ys, ox, oy, eps, regime, got, want)
+                break
+        if bad:
+            break
+    if bad:
+        rep.bad(rule, "skew-regimes", bad, where=fn.loc())
+    else:
+        rep.ok(rule, "skew-regimes[%d evaluations, f64 and f32 epsilon]" % n)
